@@ -1965,7 +1965,43 @@ W_SUSPENDED = {'cap': 100, 'files': ['pub/a one.mp3', 'pub/b two.mp3'],
                        ['queue', 1, {'d': 'pub', 'f': 'b two.mp3', 'var': 'exact'}], ['cycle'],
                        ['blocked', {'0': 32}], ['cycle*', 'track', [['blocked', {'0': 32, '1': 32}]]],
                        ['blocked', {'1': 32}], ['cycle*', 'state', [['blocked', {}]]]]}
-WITNESSES = [W_PHRASE, W_RECONCILE, W_SUSPENDED]
+# live family. (1) a directory is dropped from the settings while the other one stays as it is; (2) a user is taken off
+# a users list IN PLACE (the settings entry's list is the list object the SharedDirectory holds) — both followed by
+# load_from_settings(); (3) the same through the API with the caller's own list object; (4) friends / block list edited
+# in place and announced by the user manager's poll; (5) fixed by fixes/C08-reload-announces-removed.patch: every
+# directory dropped from the settings
+_SA = {'d': 'a', 'f': 'x one.mp3', 'var': 'exact'}
+_SB = {'d': 'b', 'f': 'y two.mp3', 'var': 'exact'}
+W_LIVE_DROP = {'live': True, 'cap': 100, 'files': ['a/x one.mp3', 'b/y two.mp3'],
+               'ops': [['reload', [['a', 'everyone', []], ['b', 'everyone', []]], 'assign'], ['wait', 2.0],
+                       ['queue', 1, _SB], ['meth', 0, 'initialize'], ['queue', 1, _SA], ['wait', 2.0],
+                       ['reload', [['a', 'everyone', []]], 'inplace'], ['wait', 2.0],
+                       ['reload', [['a', 'everyone', []], ['b', 'everyone', []]], 'inplace'], ['wait', 2.0]]}
+W_LIVE_USERS = {'live': True, 'cap': 100, 'files': ['a/x one.mp3', 'b/y two.mp3'],
+                'ops': [['reload', [['a', 'everyone', []], ['b', 'users', [0, 1]]], 'assign'], ['wait', 2.0],
+                        ['queue', 1, _SB], ['treq', 0, _SB], ['meth', 0, 'initialize'], ['wait', 2.0],
+                        ['reload', [['a', 'everyone', []], ['b', 'users', [0]]], 'inplace'], ['wait', 2.0],
+                        ['reload', [['a', 'everyone', []], ['b', 'users', [0, 1]]], 'inplace'], ['wait', 2.0],
+                        ['reload', [['a', 'everyone', []], ['b', 'users', []]], 'inplace'], ['wait', 2.0]]}
+W_LIVE_ALIAS = {'live': True, 'cap': 100, 'files': ['a/x one.mp3', 'b/y two.mp3'],
+                'ops': [['share', 'b', 'users', [0, 1]], ['wait', 2.0], ['queue', 1, _SB], ['wait', 2.0],
+                        ['mode', 'b', 'users', [0], 'alias'], ['wait', 2.0],
+                        ['mode', 'b', 'users', [0, 1], 'alias'], ['wait', 2.0]]}
+W_LIVE_POLL = {'live': True, 'cap': 100, 'files': ['a/x one.mp3', 'b/y two.mp3'],
+               'ops': [['sfriends', 'assign', [0, 1]], ['reload', [['a', 'everyone', []], ['b', 'friends', []]], 'assign'],
+                       ['wait', 2.0], ['queue', 1, _SB], ['queue', 0, _SA], ['wait', 2.0],
+                       ['sfriends', 'inplace', [0]], ['wait', 0.3], ['treq', 1, _SB], ['wait', 2.0],
+                       ['sblocked', 'inplace', {'0': 32}], ['sfriends', 'inplace', [0, 1]], ['wait', 2.0],
+                       ['sblocked', 'inplace', {}], ['wait', 2.0]]}
+W_LIVE_DROP_ALL = {'live': True, 'cap': 100, 'files': ['a/x one.mp3', 'b/y two.mp3'],
+                   'ops': [['reload', [['b', 'everyone', []]], 'assign'], ['wait', 2.0], ['queue', 1, _SB], ['wait', 2.0],
+                           ['reload', [], 'inplace'], ['wait', 2.0]]}
+# known finding (proposed): a polled setting changed and changed back within one polling interval
+W_FLIP = {'live': True, 'cap': 100, 'files': ['a/x one.mp3', 'b/y two.mp3'],
+          'ops': [['reload', [['b', 'friends', []]], 'assign'], ['wait', 2.0],
+                  ['sfriends', 'inplace', [1]], ['wait', 0.3], ['queue', 1, _SB], ['wait', 0.3],
+                  ['sfriends', 'inplace', []], ['wait', 2.0]]}
+WITNESSES = [W_PHRASE, W_RECONCILE, W_SUSPENDED, W_LIVE_DROP, W_LIVE_USERS, W_LIVE_ALIAS, W_LIVE_POLL, W_LIVE_DROP_ALL]
 
 
 class C08(Property):
@@ -2013,6 +2049,10 @@ class C08(Property):
         cases = list(WITNESSES)
         for i in range(n):
             cases.append(_gen_states_case(rng) if i % 4 == 3 else _gen_case(rng))
+        # live family (its own stream: the cases above do not depend on it)
+        rng2 = random.Random(f'C08-live-{seed}')
+        for i in range((900 if tier == 'quick' else 9000) * widen):
+            cases.append([_gen_live_case, _gen_live_states_case, _gen_live_directed][i % 3](rng2))
         return cases
 
     def correspondence(self, seed, tier, model_ok, widen=1):
@@ -2050,9 +2090,24 @@ class C08(Property):
                 if op[0] == 'phrases':
                     for ph in op[1]:
                         res.count('phrase:' + ('empty' if not ph else 'lower' if ph == ph.lower() else 'upper' if ph == ph.upper() else 'mixed'))
+            if c.get('live'):
+                res.count('family:live')
             if not exc:
                 created = refused = cyc = 0
                 for op, o in zip(c['ops'], io['obs']):
+                    if c.get('live'):
+                        for ev in o.get('ev', []):
+                            res.count('live:' + ev)
+                        if op[0] in ('reload', 'sfriends', 'sblocked'):
+                            res.count(f'{op[0]}:{op[2] if op[0] == "reload" else op[1]}')
+                        if op[0] == 'mode' and len(op) > 4:
+                            res.count('mode:alias')
+                        if 'job' in o.get('ev', []) and op[0] not in ('queue', 'treq'):
+                            b = {(u, p): (st, r) for u, p, st, r in o['before']}
+                            for u, p, st, r in o['uploads']:
+                                if b.get((u, p)) != (st, r) and op[0] not in ('meth', 'abort', 'requeue'):
+                                    cyc += 1
+                                    res.count(f'live-cycle-change:{b.get((u, p), ("?",))[0]}->{st}:{r}')
                     if op[0] in ('queue', 'treq'):
                         if len(o['uploads']) > len(o['before']):
                             created += 1
